@@ -55,7 +55,7 @@ func c06(c *Ctx) {
 			errExit := false
 			for _, sc := range i.Block().Succs {
 				for _, in := range sc.Instrs {
-					if ret, ok := an.AsReturn(in); ok && len(ret.Results) == 1 && !an.MayBeNilConst(an.RetVal(ret, 0)) {
+					if ret, ok := an.AsReturn(in); ok && len(ret.Results) == 1 && !an.MayReturnNil(ret, 0) {
 						errExit = true
 					}
 				}
